@@ -25,7 +25,7 @@ ENGINES = {
                     kind='lock-step std::vector model + lifetime registry over seeded Array histories, ASan/UBSan/LSan'),
     'h_ring': dict(tulz=['none'], cflags=['-fno-access-control'], setup_variants=['asan'],
                    kind='lock-step bounded-deque model + lifetime registry over seeded RingBuffer histories, ASan/UBSan/LSan'),
-    'h_rwlock': dict(tulz=['resource'], spy=True, schedule_sensitive=True, setup_variants=['mon', 'mon-ndebug']),
+    'h_rwlock': dict(tulz=['resource'], spy=True, schedule_sensitive=True, setup_variants=['mon']),
 }
 
 SPECS = {}
@@ -97,7 +97,7 @@ RW_ASSUME = ['stamps come from one seq_cst counter; a stamp taken before P and o
 
 SPECS['C01'] = dict(
     title='Resource: a writer never shares the lock',
-    jobs=rw_jobs('C01', (30, 1200), (900, 40000), variants=('mon', 'mon-ndebug')),
+    jobs=rw_jobs('C01', (40, 1200), (1200, 40000), variants=('mon', 'mon-ndebug', 'asan')),
     require={'any': {'windowHits': 50, 'sections': 50000, 'parks': 5000}},
     evidence=rw_evidence('case = one stress run (2-32 threads, seeded read/write sections, raw calls and guards, delay profile, CPU pinning) '
                          'or one scripted arrival pattern; every section entry is checked against a packed occupancy word and a two-word data '
@@ -196,7 +196,7 @@ SAN_NOTE = ('Decides the histories actually generated. Trusted: AddressSanitizer
 
 SPECS['C04'] = dict(
     title='RingBuffer behaves as a bounded deque',
-    jobs=model_jobs('h_ring', 'C04', (24000, 2000000), vg_cases=4000),
+    jobs=model_jobs('h_ring', 'C04', (80000, 3000000), vg_cases=4000),
     require={'any': {'histories': 5000, 'nontrivialCases': 2000}},
     evidence=ring_evidence('case = seeded history (1-200 operations, up to 4 live buffers, capacity 1-17, both overwrite modes, element types int / 24-byte POD / '
                            'lifetime-tracked class / std::string without resize) run in lock-step with a std::deque model; after every operation size, capacity, '
@@ -210,7 +210,7 @@ SPECS['C04'] = dict(
 
 SPECS['C09'] = dict(
     title='RingBuffer element lifetimes',
-    jobs=model_jobs('h_ring', 'C09', (24000, 2000000), vg_cases=4000),
+    jobs=model_jobs('h_ring', 'C09', (80000, 3000000), vg_cases=4000),
     require={'any': {'histories': 5000, 'nontrivialCases': 2000, 'trackedDtors': 100000}},
     evidence=ring_evidence('C04 histories over the lifetime-tracked element type (identity = serial number stored in the object, so memcpy/realloc relocation is '
                            'invisible but the object a destructor ran on is known), biased towards copy-assignment onto used buffers and shrinking wrapped / offset '
@@ -226,7 +226,7 @@ SPECS['C09'] = dict(
 
 SPECS['C14'] = dict(
     title='Array value semantics',
-    jobs=model_jobs('h_array', 'C14', (40000, 1500000), vg_cases=4000),
+    jobs=model_jobs('h_array', 'C14', (120000, 3000000), vg_cases=4000),
     require={'any': {'histories': 5000, 'nontrivialCases': 2000, 'zeroLength': 500, 'trackedDtors': 50000}},
     evidence=lambda agg, samples, distinct, tier: cov(
         agg.get('histories', 0), distinct,
@@ -258,7 +258,7 @@ def subject_evidence(rule):
 
 SPECS['C05'] = dict(
     title='Subject delivers to exactly the live, unmuted observers, in order',
-    jobs=model_jobs('h_subject', 'C05', (24000, 1000000), variants_thorough=('asan', 'asan-O0')),
+    jobs=model_jobs('h_subject', 'C05', (64000, 2000000), variants_thorough=('asan', 'asan-O0')),
     require={'any': {'histories': 5000, 'notifies': 50000, 'staleRejected': 5000, 'lazyRemovals': 5000, 'handleMoves': 5000}},
     evidence=subject_evidence('case = seeded history (1-150 steps, up to 40 observers, a second Subject as source of foreign handles with equal numeric ids) of subscribe '
                               '(callable, self-view callable, unique_ptr, raw pointer), unsubscribe via handle / via subject, mute, unmute, invalidate, handle move-construct/-assign, '
@@ -272,7 +272,7 @@ SPECS['C05'] = dict(
 
 SPECS['C10'] = dict(
     title='Subject tolerates callbacks that change it during notify',
-    jobs=model_jobs('h_subject', 'C10', (24000, 1000000), variants_thorough=('asan', 'asan-O0')),
+    jobs=model_jobs('h_subject', 'C10', (64000, 2000000), variants_thorough=('asan', 'asan-O0')),
     require={'any': {'histories': 5000, 'inRoundActions': 50000, 'selfUnsub': 5000, 'unsubOther': 3000, 'nestedNotifies': 5000}},
     evidence=subject_evidence('C05 histories whose callbacks run seeded scripts while being notified: subscribe a new observer, unsubscribe self / an already-called / a not-yet-called observer '
                               '(via handle or subject), mute, unmute, invalidate any target, call notify again (nesting <= 3). The script acts on the real Subject and on the model together; '
@@ -302,7 +302,7 @@ ROUTER_ASSUME = ['signature discipline: the argument signature is a function of 
 
 SPECS['C06'] = dict(
     title='SubjectRouter reaches exactly the matching observers',
-    jobs=model_jobs('h_router', 'C06', (8000, 400000), variants_thorough=('asan', 'asan-O0')),
+    jobs=model_jobs('h_router', 'C06', (12000, 600000), variants_thorough=('asan', 'asan-O0')),
     require={'any': {'histories': 2000, 'wildcardNotifies': 20000, 'multiReceiverNotifies': 5000, 'byValueMultiReceiver': 1000}},
     evidence=router_evidence('case = seeded history (2-70 steps) of subscribe / unsubscribe / mute / invalidate / shrink / notify on SubjectRouter or ConcurrentSubjectRouter (one thread) over a colliding name '
                              'alphabet {a, ab, a.b, a+, b, ""} at depth 1-3, patterns with concrete, wildcard and regex levels (including regexes matching several siblings, nothing, the empty name, and '
@@ -314,7 +314,7 @@ SPECS['C06'] = dict(
 
 SPECS['C13'] = dict(
     title='shrink is invisible to delivery; exists/depth consistent',
-    jobs=model_jobs('h_router', 'C13', (6000, 300000), variants_thorough=('asan', 'asan-O0')),
+    jobs=model_jobs('h_router', 'C13', (8000, 400000), variants_thorough=('asan', 'asan-O0')),
     require={'any': {'histories': 2000, 'shrinks': 10000, 'removedKeys': 3000, 'fullShrinks': 2000, 'existsProbes': 50000, 'probesAfterShrink': 30000}},
     evidence=router_evidence('C06 generator weighted towards unsubscribe / invalidate / shrink (concrete, regex, wildcard patterns of depth 1-4) / re-subscribe. After every operation the stored-key set is measured '
                              'with exists() on all 258 concrete keys of the universe: prefix-closed; grows only by the prefixes of a subscribed key; shrinks only in shrink, and then only by dead keys whose parent '
@@ -331,7 +331,7 @@ SPECS['C13'] = dict(
 
 SPECS['C16'] = dict(
     title='Observable notifies exactly on change, with the new value',
-    jobs=model_jobs('h_observable', 'C16', (40000, 1500000), variants_thorough=('asan', 'asan-O0')),
+    jobs=model_jobs('h_observable', 'C16', (160000, 4000000), variants_thorough=('asan', 'asan-O0')),
     require={'any': {'histories': 5000, 'changingOps': 100000, 'nonChangingOps': 100000, 'eqEqualButDifferentAssignments': 1000, 'subscriberCalls': 50000}},
     evidence=lambda agg, samples, distinct, tier: cov(
         agg.get('histories', 0), distinct,
@@ -355,7 +355,7 @@ def locale_jobs(tier, seed):
     q = tier == 'quick'
     jobs = []
     variants = ('asan',) if q else ('asan', 'asan-O0', 'asan-clang')
-    hostile = 24000 if q else 2000000
+    hostile = 96000 if q else 6000000
     for vi, variant in enumerate(variants):
         for frm, cnt in split(LOCALE_FORMS, NCPU):
             jobs.append(Job('h_locale', variant, pseed(seed, 'C19', vi), frm, cnt, label='exhaustive'))
@@ -372,7 +372,7 @@ def locale_jobs(tier, seed):
 SPECS['C19'] = dict(
     title='LocaleInfo::get is total, memory-safe and table-consistent',
     jobs=locale_jobs,
-    require={'any': {'validCombinations': 600000, 'hostileStrings': 20000, 'longParts': 2000, 'dotBeforeUnderscore': 1000, 'unknownLanguageKnownCountry': 500}},
+    require={'any': {'validCombinations': 600000, 'hostileStrings': 90000, 'longParts': 8000, 'dotBeforeUnderscore': 4000, 'unknownLanguageKnownCountry': 2000}},
     evidence=lambda agg, samples, distinct, tier: cov(
         agg.get('calls', 0), distinct,
         '(a) exhaustive: every table language (224 names and 184 distinct codes) x every table country (249, by code and by name) x {no charset, .UTF-8, .1252}; (b) hostile classes: parts of 60-70, 100, '
@@ -409,7 +409,7 @@ def fs_jobs(engine, prop, cases, big=None):
 
 SPECS['C17'] = dict(
     title='File round-trips bytes exactly',
-    jobs=fs_jobs('h_file', 'C17', (4000, 120000), big=(64, ['maxlen=8388608'])),
+    jobs=fs_jobs('h_file', 'C17', (12000, 300000), big=(64, ['maxlen=8388608'])),
     require={'any': {'files': 2000, 'filesWithNul': 500, 'filesWith0xFF': 500, 'filesWithCRLF': 200, 'emptyFiles': 100, 'appendSessions': 1000, 'sizeCalls': 3000, 'seeks': 3000, 'errorProbes': 500}},
     evidence=lambda agg, samples, distinct, tier: cov(
         agg.get('files', 0), distinct,
@@ -427,18 +427,19 @@ SPECS['C17'] = dict(
 
 SPECS['C18'] = dict(
     title='Path agrees with the filesystem',
-    jobs=fs_jobs('h_path', 'C18', (1600, 40000), big=(40, ['maxfile=4000000'])),
+    jobs=fs_jobs('h_path', 'C18', (4000, 80000), big=(40, ['maxfile=4000000'])),
     require={'any': {'trees': 500, 'nodes': 5000, 'emptyDirectories': 200, 'relativeQueries': 3000, 'trailingSeparatorQueries': 500, 'missingPathProbes': 1000,
-                     'identitiesChecked': 50000, 'visitors': 500, 'nestedVisitors': 200}},
+                     'identitiesChecked': 50000, 'visitors': 500, 'nestedVisitors': 200, 'deepChains': 100, 'maxCwdBytes': 600}},
     evidence=lambda agg, samples, distinct, tier: cov(
         agg.get('trees', 0) + agg.get('pathStrings', 0), distinct,
         'even cases: a generated tree (depth <= 4, fan-out <= 6, empty directories, files of 0 B - 100 KB, thorough a few MB; names with spaces, dots, leading dots, UTF-8, arbitrary high bytes, 200-byte names; '
         'no symlinks) compared node by node with std::filesystem through absolute paths, relative paths and trailing-separator paths: exists/isFile/isDirectory/size (directory = sum of regular files beneath)/'
-        'listChildren (multiset equality, no "." / ".."), missing paths and their exceptions, nested DirectoryVisitors (absolute, relative, empty path) with cwd before/inside/after. odd cases: 200 path strings '
+        'listChildren (multiset equality, no "." / ".."), missing paths and their exceptions, nested DirectoryVisitors (absolute, relative, empty path) with cwd before/inside/after; every tenth case is a chain '
+        'of 3-7 nested directories with 20-200 byte names (working directory up to ~1400 bytes) descended with one visitor per level, each of which must restore its predecessor. odd cases: 200 path strings '
         'each: join/getPathName/getParentDirectory identities for d from segments and "/" separators and separator-free n, join with an absolute path, arbitrary strings for memory safety only. '
         'distinct = distinct trees + distinct string triples',
         samples, observed=pick(agg, 'trees', 'nodes', 'directories', 'files', 'emptyDirectories', 'nodeQueries', 'relativeQueries', 'trailingSeparatorQueries', 'missingPathProbes', 'oddNames', 'bytesInFiles',
-                               'pathStrings', 'identitiesChecked', 'absoluteJoins', 'arbitraryStrings', 'visitors', 'nestedVisitors')),
+                               'pathStrings', 'identitiesChecked', 'absoluteJoins', 'arbitraryStrings', 'visitors', 'nestedVisitors', 'deepChains', 'maxCwdBytes')),
     assumptions=['identities are judged for directories written with "/" separators (Path::Separator); strings with backslashes, the empty string and lone separators are only required not to trip the sanitizers',
                  'runs as a user who can read every generated entry (exists() is implemented with fopen)'],
     manifest=dict(engine='h_path', text='Generated directory trees compared node by node with std::filesystem, string identities exactly as stated over generated path strings, working directory observed around nested '
@@ -450,7 +451,7 @@ SPECS['C18'] = dict(
 def thread_jobs(tier, seed):
     q = tier == 'quick'
     jobs = []
-    plan = (('mon', 1200), ('asan', 600)) if q else (('mon', 30000), ('asan', 12000), ('mon-ndebug', 10000), ('asan-O0', 4000))
+    plan = (('mon', 3200), ('asan', 1600)) if q else (('mon', 60000), ('asan', 24000), ('mon-ndebug', 20000), ('asan-O0', 8000))
     for vi, (variant, n) in enumerate(plan):
         for frm, cnt in split(n, 8):
             jobs.append(Job('h_thread', variant, pseed(seed, 'C20', vi), frm, cnt, label=variant))
@@ -460,15 +461,16 @@ def thread_jobs(tier, seed):
 SPECS['C20'] = dict(
     title='tulz::Thread runs its callable once, on a live copy',
     jobs=thread_jobs,
-    require={'any': {'starts': 1500, 'lateStarts': 700, 'polledFinishes': 500, 'runnables': 150}},
+    require={'any': {'starts': 1500, 'lateStarts': 700, 'polledFinishes': 500, 'runnables': 150, 'bodyDoneBeforeStartReturned': 100}},
     evidence=lambda agg, samples, distinct, tier: cov(
         agg.get('starts', 0), distinct,
         'case = one Thread started through start() or the constructor with a function pointer, a small closure, a 256-byte functor, a copyable functor (each carrying a canary poisoned by a volatile store in its '
         'destructor) and 0-3 lvalue arguments, or with a Runnable; the new thread is delayed 0-5 ms in the interposer trampoline before its first instruction while the starter returns from start() and '
+        'overwrites its dead stack - or, in a quarter of the cases, the starter is held up right after pthread_create so that the callable has finished before start() returns; the starter '
         'overwrites 32 KB of its dead stack; monitors: canary at entry and exit of the call, invocation count == 1, executing tid != starter tid, arguments by address and value, isFinished() false inside the '
         'callable, a poller that sees isFinished() must then see the callable\'s last action, the same after join(); Runnable run once, destroyed once, after run(). ASan build: the same defect class shows as '
         'stack-use-after-scope/-return. non-trivial = the body began after start() had returned; distinct = distinct (kind, args, path, delay bucket) among those',
-        samples, observed=pick(agg, 'starts', 'lateStarts', 'polledFinishes', 'runnables', 'canaryChecks', 'argumentIdentityChecks', 'callableCopiesObserved'), kinds=agg.get('kinds', {})),
+        samples, observed=pick(agg, 'starts', 'lateStarts', 'bodyDoneBeforeStartReturned', 'polledFinishes', 'runnables', 'canaryChecks', 'argumentIdentityChecks', 'callableCopiesObserved'), kinds=agg.get('kinds', {})),
     assumptions=['arguments are lvalues that outlive the thread (the statement quantifies over lvalue argument lists)', 'the Thread object outlives join()'],
     manifest=dict(engine='h_thread', text='Canary-carrying callables under manufactured late scheduling (trampoline delay + dead-stack clobbering) in a plain monitored build, and the same starts under ASan with '
                   'stack-use-after-return detection; completion ordering checked through marks written by the callable.',
@@ -503,7 +505,7 @@ def pool_evidence(rule):
 
 SPECS['C07'] = dict(
     title='ThreadPool: at most once, destroyed exactly once',
-    jobs=pool_jobs('C07', (('mon', 1600), ('asan', 500)), (('mon', 60000), ('asan', 15000), ('mon-ndebug', 15000))),
+    jobs=pool_jobs('C07', (('mon', 4800), ('asan', 1200)), (('mon', 120000), ('asan', 30000), ('mon-ndebug', 30000))),
     require={'any': {'programs': 1500, 'tasksRan': 10000, 'tasksDropped': 5000, 'clearsWithRunningTask': 100, 'stopsWithRunningTask': 1000, 'singleWorkerPrograms': 300}},
     evidence=pool_evidence('case = seeded owner program (4-40 operations over start(Runnable), start(closure [, lvalue]), clear, stop, restart, waitDrain, getters, yield; stop storms) on a fresh pool with maximum '
                            '1/2/3/4/8 non-expiring workers. Tasks log run entry/exit, worker tid and destruction into records that outlive them; rules: runs <= 1, destroyed exactly once and after run() returned, '
@@ -515,7 +517,7 @@ SPECS['C07'] = dict(
 
 SPECS['C08'] = dict(
     title='ThreadPool::stop() terminates, pool quiescent and restartable',
-    jobs=pool_jobs('C08', (('mon', 2400), ('asan', 400)), (('mon', 150000), ('asan', 15000), ('mon-ndebug', 30000))),
+    jobs=pool_jobs('C08', (('mon', 6400), ('asan', 1200)), (('mon', 300000), ('asan', 30000), ('mon-ndebug', 60000))),
     require={'any': {'stops': 15000, 'stopsWithWorkerInPreBlockWindow': 1000, 'restarts': 8000, 'stopsWithRunningTask': 1500}},
     evidence=pool_evidence('C07 programs with stop storms (start k tasks; stop immediately / after the first task started / after drain) and the delay at cond_wait entry enabled (worker has evaluated its predicate and '
                            'holds the queue mutex but has not blocked). Deciding monitors: quiescence oracle (owner in pthread_join, workers in cond_wait, nothing runnable = stop() can never return); after every '
@@ -532,7 +534,7 @@ SPECS['C08'] = dict(
 def crouter_jobs(tier, seed):
     q = tier == 'quick'
     jobs = []
-    plan = (('mon', 90), ('asan', 30)) if q else (('mon', 4000), ('asan', 800), ('mon-ndebug', 1200))
+    plan = (('mon', 180), ('asan', 60)) if q else (('mon', 8000), ('asan', 1600), ('mon-ndebug', 2400))
     for vi, (variant, n) in enumerate(plan):
         for frm, cnt in split(n, 6 if q else 8):
             jobs.append(Job('h_crouter', variant, pseed(seed, 'C11', vi), frm, cnt, label=variant))
@@ -566,7 +568,7 @@ SPECS['C11'] = dict(
 def race_jobs(tier, seed):
     q = tier == 'quick'
     jobs = []
-    reps = 5 if q else 25
+    reps = 8 if q else 40
     ops = 'ops=%d' % (60000 if q else 120000)
     k = 0
     for variant in ('tsan',):   # clang 14 cannot compile Subject.h (parenthesised aggregate initialisation, P0960)
